@@ -98,7 +98,18 @@ def make_case(ctx, g):
             ctx.count("opts:" + json.dumps(opts, sort_keys=True))
             try:
                 t = doc.serialize(format="json", **opts)
-                back = ProvDocument.deserialize(content=t, format="json")
+                channel = g.choice(["content", "content", "bytes", "stream"])
+                ctx.count("read-channel:" + channel)
+                if channel == "content":
+                    back = ProvDocument.deserialize(content=t, format="json")
+                elif channel == "bytes":
+                    back = ProvDocument.deserialize(content=t.encode("utf-8"), format="json")
+                else:
+                    import io as _io
+                    buf = _io.BytesIO()
+                    doc.serialize(buf, format="json", **opts)          # the text as a binary destination receives it (UTF-8)
+                    buf.seek(0)
+                    back = ProvDocument.deserialize(source=buf, format="json")
                 got = proto.strict_doc(back)
                 problem = None if got == want else "reloaded document differs"
             except Exception as e:  # noqa
